@@ -143,16 +143,26 @@ pub fn build_command(root: &Path, cfg: &Config) -> MosResult<()> {
                 .filter(|p| stem(p) == stem(source_path))
                 .count()
                 == 1;
+            let relative = source_path.strip_prefix(root).unwrap_or(source_path);
+            let inside_project = relative
+                .components()
+                .all(|c| matches!(c, std::path::Component::Normal(_)));
             let listing_path = if is_unique {
-                format!("{}.lst", stem(source_path))
+                PathBuf::from(format!("{}.lst", stem(source_path)))
+            } else if inside_project {
+                // The directories are kept: flattened into the name, 'a/b/c.asm' and 'a_b/c.asm' would be the same file again
+                PathBuf::from(format!("{}.lst", relative.to_string_lossy()))
             } else {
-                let relative = source_path.strip_prefix(root).unwrap_or(source_path);
-                format!(
+                PathBuf::from(format!(
                     "{}.lst",
                     relative.to_string_lossy().replace(['/', '\\'], "_")
-                )
+                ))
             };
-            let mut out = fs::File::create(target_dir.join(listing_path)).map_err(map_io_error)?;
+            let listing_path = target_dir.join(listing_path);
+            if let Some(parent) = listing_path.parent() {
+                fs::create_dir_all(parent).map_err(map_io_error)?;
+            }
+            let mut out = fs::File::create(listing_path).map_err(map_io_error)?;
             out.write_all(contents.as_bytes()).map_err(map_io_error)?;
         }
     }
